@@ -87,6 +87,17 @@ def tlc_cases(cfg, module='MC_LoadRef', timeout=7200, extra_files=(),
         with open(tmp, 'w') as f:
             json.dump({'stats': stats, 'cases': r.cases}, f)
         os.replace(tmp, path)
+        # older explorations of the same configuration are obsolete
+        import glob
+        for old in glob.glob(os.path.join(
+                cdir, os.path.splitext(cfg)[0] + '-*.json')):
+            if old != path and os.path.getmtime(old) < \
+                    os.path.getmtime(path) - 3600:
+                try:
+                    os.remove(old)
+                    os.remove(old + '.lock')
+                except OSError:
+                    pass
         return stats, r.cases
 
 
@@ -348,6 +359,33 @@ def rel_c13(c):
         out.append(('model', 'the reference depends on key order for %s'
                     % json.dumps(c['doc'])[:300], None))
     n = 0
+    if c['nalias'] > 0:
+        # aliased documents: where the first visit rewrites a shared node the
+        # outcome is the known finding F7, but it must still not depend on the
+        # order of the keys or on the style: compare the real outcomes with
+        # each other
+        if render.expand(c['doc']) is None:
+            return out, 0
+        base = None
+        for style, rev in (('flow', False), ('flow', True), ('block', False),
+                           ('block', True)):
+            doc = reverse_maps(c['doc']) if rev else c['doc']
+            if rev and not anchors_precede_aliases(doc):
+                continue
+            o = loadreplay.observe(c, style=style, doc=doc)
+            n += 1
+            cur = (o['outcome'], json.dumps(unordered(o['value']),
+                                            sort_keys=True, default=repr)
+                   if o['outcome'] == 'VAL' else '')
+            if base is None:
+                base = (cur, o['text'])
+            elif cur != base[0]:
+                out.append(('impl', 'load as %s: %r gives %s but %r gives %s '
+                            '(same document, keys reordered / other style)'
+                            % (json.dumps(c['dt']), base[1], base[0],
+                               o['text'], cur), None))
+                break
+        return out, n
     variants = [('flow', 0, False, False), ('block', 0, False, False),
                 ('quoted', 0, False, False), ('canonical', 0, False, False),
                 ('flow', 1, False, False), ('flow', 2, False, False),
@@ -373,6 +411,15 @@ def rel_c13(c):
                             extra, rev, d), fid))
             break
     return out, n
+
+
+def anchors_precede_aliases(doc):
+    """After reordering keys the first occurrence of a shared node must still
+    be a position where an anchor can be written (always true: the renderer
+    anchors the first occurrence it meets), but a node must not become its own
+    ancestor's earlier sibling in a way that changes sharing: sharing is by id,
+    so any order is renderable."""
+    return True
 
 
 def rel_c17(c):
@@ -461,11 +508,48 @@ def _chunk(cases):
     return out
 
 
+INV_OF = {
+    'C01': ('TypeSafe', 'CtorArgsConform'),
+    'C02': ('MatchesReference', 'RejectsWithRecognitionError'),
+    'C03': ('MatchesReference',), 'C04': ('CtorArgsConform', 'TypeSafe'),
+    'C08': ('OnlyDocumentedErrors',), 'C10': ('HooksOnlyOfDefiningClasses',),
+    'C13': ('KeyOrderIrrelevant',),
+    'C17': ('CitesSomething', 'CitesInsideDocument'),
+    'C18': ('MatchesReference',),
+}
+
+
+def select(V, pid, cases, rnd):
+    """Every case is judged at model level (the flags TLC evaluated); all
+    cases that load, all with a model-level flag down or a deviation flag,
+    and a seeded sample of the rejected ones (capped per class model) are
+    replayed on the implementation."""
+    cap = 6000 if V.tier == 'quick' else 120000
+    keep, rest = [], {}
+    for c in cases:
+        if (c['res'][0] == 'VAL' or any(c['dev'].values()) or
+                not all(c['inv'][k] for k in INV_OF[pid])):
+            keep.append(c)
+        else:
+            rest.setdefault(c['model'], []).append(c)
+    skipped = 0
+    for m, lst in sorted(rest.items()):
+        rnd.shuffle(lst)
+        keep += lst[:cap]
+        skipped += max(0, len(lst) - cap)
+    V.notes['replay_selection'] = (
+        'all accepted documents + all flagged + up to %d rejected documents '
+        'per class model; %d rejected documents judged at model level only'
+        % (cap, V.notes.get('_skipped', 0) + skipped))
+    V.notes['_skipped'] = V.notes.get('_skipped', 0) + skipped
+    return keep
+
+
 def replay(V, pid, cases, sample_filter=None):
     import multiprocessing
     _pid[0] = pid
     rnd = random.Random(SEED)
-    cases = list(cases)
+    cases = select(V, pid, list(cases), rnd)
     rnd.shuffle(cases)
     if len(cases) < 200:
         parts = [_chunk(cases)]
@@ -514,7 +598,7 @@ PLAN = {
     'C04': [('MC_LoadRef_main', None), ('MC_LoadRef_alias', None)],
     'C08': [('MC_LoadRef_main', None), ('MC_LoadRef_alias', None)],
     'C10': [('MC_LoadRef_main', C10_MODELS)],
-    'C13': [('MC_LoadRef_main', C02_MODELS)],
+    'C13': [('MC_LoadRef_main', C02_MODELS), ('MC_LoadRef_alias', None)],
     'C17': [('MC_LoadRef_main', None)],
     'C18': [('MC_LoadRef_alias', None)],
 }
